@@ -911,6 +911,18 @@ bool QXmppTransferManager::handleStanza(const QDomElement &element)
         return false;
     }
 
+    // All requests implemented here are of type 'set'. Requests of type 'get' must not be
+    // swallowed: the client answers unhandled IQ requests with an error (RFC 6120, 8.2.3).
+    const auto iqType = element.attribute(u"type"_s);
+    if (iqType == u"get") {
+        return false;
+    }
+    // IBB responses are handled in _q_iqReceived(); a response (which may echo the payload of the
+    // request) must never be answered (RFC 6120, 8.2.3).
+    if (iqType != u"set" && (QXmppIbbCloseIq::isIbbCloseIq(element) || QXmppIbbDataIq::isIbbDataIq(element) || QXmppIbbOpenIq::isIbbOpenIq(element))) {
+        return false;
+    }
+
     // XEP-0047 In-Band Bytestreams
     if (QXmppIbbCloseIq::isIbbCloseIq(element)) {
         QXmppIbbCloseIq ibbCloseIq;
